@@ -125,6 +125,7 @@ class VGM_Writer : public VGM_Interface
 		double curr_delay;
 		uint32_t sample_count;
 		uint32_t loop_sample;
+		bool loop_set;
 };
 
 #endif
